@@ -2300,6 +2300,7 @@ pub fn run_scenario(scn: &Scenario) -> RunResult {
     sched::install(&sched);
     sched.lock().tag_drops = vec![0; scn.world.tags];
     sched.lock().tag_made = vec![0; scn.world.tags];
+    sched.lock().tag_panicky = scn.world.panicky_tags.clone();
     if scn.profile == "C07" {
         tiny_duplicate_checks(&sched, scn.cfg.sched_seed);
     }
